@@ -20,6 +20,8 @@ CLAIMED={
         "Trusted: engine + base64/ConstantTimeCompare/regexp models (differential self-test on every run), interpreted net/http wire code, cvc5 with z3 fallback. Out: TLS/MITM transport, DNS-level aliases of loopback, deny-domain regexps (C17), longer headers/credentials."),
  "C01":("The real connection loop (http.ReadRequest, scheme fix-up, modifier stack, round trip hand-off) is executed symbolically over scripted request bytes: every list of <=2/3 header fields from a 19-entry pool (end-to-end, hop-by-hop, Connection nominations, Via, X-Forwarded-*, User-Agent) with symbolic values, GET/POST, absolute/origin form with escaped query, HTTP/1.0/1.1, no body / Content-Length / chunked (1-2 chunks, symbolic bytes), first or second request of a keep-alive connection; what the recording next hop receives is compared field by field with the reference.",
         "Trusted: engine, interpreted net/http request parser, cvc5/z3. Out: http.Transport serialisation and Accept-Encoding, upstream-proxy and MITM transports (same modifier path), site credentials/header rules (C06/C16), bodies near 4 KiB/32 KiB buffers, longer header lists."),
+ "C02":("The real connection loop writes the responses of a scripted origin (status pool, <=2 header fields from a pool with symbolic values, 3 symbolic body bytes delimited by Content-Length / unknown length / with trailer, GET/HEAD, HTTP/1.0 and 1.1 clients, two exchanges per connection) and the captured bytes are parsed back: k-th response answers k-th request, end-to-end fields and body intact, nothing beyond the messages; the manual head writer for HEAD/1xx/204/304 (symbolic reason, fields, trailers) ends in exactly one empty line; the pattern flush writer flushes whenever a chunk/event boundary completes, also split across writes.",
+        "Trusted: engine, interpreted net/http writer and reader, cvc5/z3. Out: gzip handling in Transport, timing of delivery, bodies around 4 KiB/32 KiB, response-header rules (C16), the http.Handler variant."),
 }
 NA={
  "C14":"deciding code is the goja JavaScript VM executing PAC scripts; not encodable by a Go-SSA symbolic executor (result-list parsing is covered under C05)",
